@@ -11,25 +11,37 @@ from .meta import meta
 META = meta('C20', level='other', extra_tb=None)
 
 
+SPELLINGS = ['engine.io', '/engine.io', 'engine.io/', '/engine.io/', '/a/b', 'a/b/', '/', '']
+
+
 def _init_path_rule(A, qual, guarded):
+    """The stored endpoint is the configured one with exactly one leading and one trailing
+    slash, for every way of spelling it (decided by constant folding on representative
+    spellings: with / without either slash, nested, and the root endpoint)."""
+    from sa.absval import AbsEval
     fi = A.func(qual + '.__init__')
-    ps = [p for p in A.paths(A.enum(follow_handlers=False), fi, fi.cls) if p.outcome == 'return']
-    A.floor('C20', '%s.__init__ paths' % qual, len(ps), 4)
-    for p in ps:
-        v = PV(p)
-        ga = set(v.guard_atoms())
-        if guarded and ('engineio_path is None', True) in ga:
-            continue
-        w = [val for i, val in v.writes('self.engineio_path')]
-        final = w[-1] if w else None
-        lead = any(a.endswith(".startswith('/')") and pl for a, pl in ga) or \
-            any(x.startswith("'/' + ") for x in w)
-        tail = any(a.endswith(".endswith('/')") and pl for a, pl in ga) or \
-            (final or '').endswith("+ '/'")
-        A.check(lead and tail, 'C20.endpoint-normalised', '%s: the endpoint is normalised to '
-                'start and end with "/" (so that a prefix-sharing sibling cannot match)' % qual,
-                A.site(fi), key='%s-endpoint-normalised' % qual, detail=[final] + v.describe(),
-                behaviour='/engine.iox/ is routed to the Engine.IO server')
+    for sp in SPELLINGS:
+        A.counters['cases'] += 1
+        asm = {'engineio_path': Const(sp)}
+        ps = [p for p in A.paths(A.enum(assume=assume_from(asm), follow_handlers=False), fi,
+                                 fi.cls) if p.outcome == 'return']
+        A.floor('C20', '%s.__init__ paths for endpoint %r' % (qual, sp), len(ps), 1)
+        core = sp.strip('/')
+        want = '/' + core + '/' if core else '/'
+        for p in ps:
+            v = PV(p)
+            w = [e.expr for e in v.ev if e.kind == 'write' and
+                 txt(e.target) == 'self.engineio_path']
+            ev = AbsEval(assume_from(asm))
+            val = ev.eval(w[-1]) if w else None
+            A.check(isinstance(val, Const) and val.v == want, 'C20.endpoint-normalised',
+                    '%s: the endpoint %r is stored as %r (one leading and one trailing "/", so '
+                    'that a prefix-sharing sibling cannot match)' % (qual, sp, want), A.site(fi),
+                    key='%s-endpoint-normalised' % qual,
+                    detail=['stored: %s = %r' % (txt(w[-1]) if w else None,
+                                                 getattr(val, 'v', None))] + v.describe(),
+                    behaviour='/engine.iox/ is routed to the Engine.IO server, or (root '
+                              'endpoint) nothing is')
 
 
 def check(A):
@@ -157,6 +169,22 @@ def check(A):
 
     # ------------------------------------------------------------------ lifespan
     ls = A.func('async_drivers.asgi.ASGIApp.lifespan')
+    n_cb = 0
+    for t in [x for x in ast.walk(ls.node) if isinstance(x, ast.Try)]:
+        body_txt = ' '.join(ast.unparse(st) for st in t.body)
+        if 'self.on_startup' in body_txt or 'self.on_shutdown' in body_txt:
+            n_cb += 1
+            ok = any(h.type is None or (isinstance(h.type, ast.Name) and
+                                        h.type.id == 'BaseException') for h in t.handlers)
+            A.check(ok, 'C20.lifespan', 'whatever a startup/shutdown callback raises is reported '
+                    'as lifespan.*.failed (catch-all around the callback)', A.site(ls, t),
+                    key='lifespan-callback-catch-all',
+                    detail=[ast.unparse(h.type) if h.type is not None else 'bare'
+                            for h in t.handlers],
+                    behaviour='a callback that ends with SystemExit / CancelledError / '
+                              'KeyboardInterrupt leaves the ASGI server without the failed '
+                              'event: it waits for the lifespan reply forever')
+    A.floor('C20', 'lifespan callback try blocks', n_cb, 2)
     ps = [p for p in A.paths(A.enum(loop_bound=1, max_paths=40000), ls, ls.cls)
           if p.outcome != 'cut']
     nl = 0
